@@ -32,6 +32,15 @@ func genProgram(t *rapid.T, nkeys, maxOps int) []COp {
 				}
 			}
 			op.Exp = rapid.Bool().Draw(t, "exp")
+			if op.K == "putmany" && rapid.IntRange(0, 3).Draw(t, "mixed") == 0 {
+				// a batch with per-record expiry flags in which keys may repeat (getmany keeps distinct keys)
+				n := rapid.IntRange(2, 4).Draw(t, "batch")
+				op.Keys, op.Exps = nil, nil
+				for j := 0; j < n; j++ {
+					op.Keys = append(op.Keys, rapid.IntRange(0, nkeys-1).Draw(t, "bkey"))
+					op.Exps = append(op.Exps, rapid.Bool().Draw(t, "bexp"))
+				}
+			}
 		}
 		prog = append(prog, op)
 	}
